@@ -5,8 +5,7 @@ use vstd::std_specs::cmp::OrdSpec;
 macro_rules! ensure { ($cond:expr, $($t:tt)*) => { if !$cond { return Err(mk_invalid_bucket_config()); } }; }
 verus! {
 //@include shims/time.rs
-//@include shims/std_i64.rs
-//@include shims/std_gaps.rs
+//@include shims/std_wide.rs
 
 // error value built by the `ensure!` shim (n0_error's macro builds it from the struct literal + location)
 pub struct InvalidBucketConfig;
